@@ -1,0 +1,267 @@
+//! Verification hooks, compiled only with the cargo feature `verif-hooks`.
+//!
+//! Nothing in here changes what the library does. It provides
+//!  * drop-in wrappers around `std::sync::{Mutex, RwLock}` that report every
+//!    acquisition and release to a per-thread callback (none installed: plain std locks), and
+//!  * a read-only snapshot of the shared in-memory bookkeeping of a [`DB`](crate::DB).
+//!
+//! `db.rs` and `tx.rs` pick the wrappers up through `use crate::verif::fake_std as std;`, so the
+//! lock calls stay exactly where the library puts them.
+
+use std::cell::Cell;
+
+/// How a lock is being taken.
+#[derive(Debug, Clone, Copy, PartialEq, Eq, Hash)]
+pub enum Mode {
+    /// `Mutex::lock`
+    Mutex,
+    /// `RwLock::read`
+    Read,
+    /// `RwLock::write`
+    Write,
+}
+
+/// Identity of a lock: its address and the type it protects.
+#[derive(Debug, Clone, Copy, PartialEq, Eq, Hash)]
+pub struct LockId {
+    pub addr: usize,
+    pub payload: &'static str,
+}
+
+/// Callbacks invoked on the thread that performs the lock operation.
+pub trait Hooks {
+    /// Called before the underlying std lock call; may block the calling thread.
+    fn before_acquire(&self, lock: LockId, mode: Mode);
+    /// Called after the underlying std guard has been dropped.
+    fn after_release(&self, lock: LockId, mode: Mode);
+}
+
+thread_local! {
+    static HOOKS: Cell<Option<&'static dyn Hooks>> = const { Cell::new(None) };
+}
+
+/// Installs (or removes) the callbacks for the current thread.
+pub fn install(hooks: Option<&'static dyn Hooks>) {
+    HOOKS.with(|h| h.set(hooks));
+}
+
+fn before(lock: LockId, mode: Mode) {
+    if let Some(h) = HOOKS.with(|h| h.get()) {
+        h.before_acquire(lock, mode);
+    }
+}
+
+fn after(lock: LockId, mode: Mode) {
+    // may run during thread teardown
+    if let Ok(Some(h)) = HOOKS.try_with(|h| h.get()) {
+        h.after_release(lock, mode);
+    }
+}
+
+/// In-memory bookkeeping shared by all transactions of a database handle.
+#[derive(Debug, Clone, PartialEq, Eq, Hash)]
+pub struct Snapshot {
+    /// page ids that may be allocated right away
+    pub free: Vec<u64>,
+    /// page ids freed by a transaction id, not yet reusable
+    pub pending: Vec<(u64, Vec<u64>)>,
+    /// snapshot ids of the open read-only transactions
+    pub open_ro: Vec<u64>,
+}
+
+impl crate::DB {
+    /// Returns a copy of the shared free list and reader list.
+    pub fn verif_snapshot(&self) -> Snapshot {
+        let (free, pending) = self.inner.freelist.lock().unwrap().verif_parts();
+        let open_ro = self.inner.open_ro_txs.lock().unwrap().clone();
+        Snapshot {
+            free,
+            pending,
+            open_ro,
+        }
+    }
+}
+
+pub mod sync {
+    use std::{
+        mem::ManuallyDrop,
+        ops::{Deref, DerefMut},
+        sync::{LockResult, PoisonError},
+    };
+
+    use super::{after, before, LockId, Mode};
+
+    fn id_of<L, T>(l: &L) -> LockId {
+        LockId {
+            addr: l as *const L as usize,
+            payload: std::any::type_name::<T>(),
+        }
+    }
+
+    pub struct Mutex<T> {
+        inner: std::sync::Mutex<T>,
+    }
+
+    pub struct MutexGuard<'a, T> {
+        guard: ManuallyDrop<std::sync::MutexGuard<'a, T>>,
+        id: LockId,
+    }
+
+    impl<T> Mutex<T> {
+        pub fn new(t: T) -> Mutex<T> {
+            Mutex {
+                inner: std::sync::Mutex::new(t),
+            }
+        }
+
+        pub fn lock(&self) -> LockResult<MutexGuard<'_, T>> {
+            let id = id_of::<_, T>(&self.inner);
+            before(id, Mode::Mutex);
+            match self.inner.lock() {
+                Ok(g) => Ok(MutexGuard {
+                    guard: ManuallyDrop::new(g),
+                    id,
+                }),
+                Err(e) => Err(PoisonError::new(MutexGuard {
+                    guard: ManuallyDrop::new(e.into_inner()),
+                    id,
+                })),
+            }
+        }
+
+        pub fn get_mut(&mut self) -> LockResult<&mut T> {
+            self.inner.get_mut()
+        }
+
+        pub fn into_inner(self) -> LockResult<T> {
+            self.inner.into_inner()
+        }
+    }
+
+    impl<T> Deref for MutexGuard<'_, T> {
+        type Target = T;
+        fn deref(&self) -> &T {
+            &self.guard
+        }
+    }
+
+    impl<T> DerefMut for MutexGuard<'_, T> {
+        fn deref_mut(&mut self) -> &mut T {
+            &mut self.guard
+        }
+    }
+
+    impl<T> Drop for MutexGuard<'_, T> {
+        fn drop(&mut self) {
+            unsafe { ManuallyDrop::drop(&mut self.guard) };
+            after(self.id, Mode::Mutex);
+        }
+    }
+
+    pub struct RwLock<T> {
+        inner: std::sync::RwLock<T>,
+    }
+
+    pub struct RwLockReadGuard<'a, T> {
+        guard: ManuallyDrop<std::sync::RwLockReadGuard<'a, T>>,
+        id: LockId,
+    }
+
+    pub struct RwLockWriteGuard<'a, T> {
+        guard: ManuallyDrop<std::sync::RwLockWriteGuard<'a, T>>,
+        id: LockId,
+    }
+
+    impl<T> RwLock<T> {
+        pub fn new(t: T) -> RwLock<T> {
+            RwLock {
+                inner: std::sync::RwLock::new(t),
+            }
+        }
+
+        pub fn read(&self) -> LockResult<RwLockReadGuard<'_, T>> {
+            let id = id_of::<_, T>(&self.inner);
+            before(id, Mode::Read);
+            match self.inner.read() {
+                Ok(g) => Ok(RwLockReadGuard {
+                    guard: ManuallyDrop::new(g),
+                    id,
+                }),
+                Err(e) => Err(PoisonError::new(RwLockReadGuard {
+                    guard: ManuallyDrop::new(e.into_inner()),
+                    id,
+                })),
+            }
+        }
+
+        pub fn write(&self) -> LockResult<RwLockWriteGuard<'_, T>> {
+            let id = id_of::<_, T>(&self.inner);
+            before(id, Mode::Write);
+            match self.inner.write() {
+                Ok(g) => Ok(RwLockWriteGuard {
+                    guard: ManuallyDrop::new(g),
+                    id,
+                }),
+                Err(e) => Err(PoisonError::new(RwLockWriteGuard {
+                    guard: ManuallyDrop::new(e.into_inner()),
+                    id,
+                })),
+            }
+        }
+
+        pub fn get_mut(&mut self) -> LockResult<&mut T> {
+            self.inner.get_mut()
+        }
+
+        pub fn into_inner(self) -> LockResult<T> {
+            self.inner.into_inner()
+        }
+    }
+
+    impl<T> Deref for RwLockReadGuard<'_, T> {
+        type Target = T;
+        fn deref(&self) -> &T {
+            &self.guard
+        }
+    }
+
+    impl<T> Drop for RwLockReadGuard<'_, T> {
+        fn drop(&mut self) {
+            unsafe { ManuallyDrop::drop(&mut self.guard) };
+            after(self.id, Mode::Read);
+        }
+    }
+
+    impl<T> Deref for RwLockWriteGuard<'_, T> {
+        type Target = T;
+        fn deref(&self) -> &T {
+            &self.guard
+        }
+    }
+
+    impl<T> DerefMut for RwLockWriteGuard<'_, T> {
+        fn deref_mut(&mut self) -> &mut T {
+            &mut self.guard
+        }
+    }
+
+    impl<T> Drop for RwLockWriteGuard<'_, T> {
+        fn drop(&mut self) {
+            unsafe { ManuallyDrop::drop(&mut self.guard) };
+            after(self.id, Mode::Write);
+        }
+    }
+}
+
+/// `std` with `sync::{Mutex, RwLock}` and their guards replaced by the wrappers above.
+pub mod fake_std {
+    pub use ::std::*;
+
+    pub mod sync {
+        pub use ::std::sync::*;
+
+        pub use crate::verif::sync::{
+            Mutex, MutexGuard, RwLock, RwLockReadGuard, RwLockWriteGuard,
+        };
+    }
+}
